@@ -6,6 +6,7 @@ package c07
 import (
 	"encoding/json"
 	"fmt"
+	"math/big"
 	"os"
 	"sort"
 	"strings"
@@ -450,6 +451,11 @@ func TestC07(t *testing.T) {
 		u := hist.NewU(rt)
 		prof := profileWheel[u.N(len(profileWheel), "profile")]
 		scripted := (prof == "governance") && u.N(3, "scripted") != 0
+		propopts := scripted && u.N(4, "propopts") == 0
+		if propopts {
+			// the only deadlines that validate for all three proposal types at once: proposal-option updates can pass
+			p.PropFundingDL, p.PropVotingDL = 75000, 150000
+		}
 		role := hist.Roles(p, 2)[u.N(2, "role")]
 		tr := &hist.Trace{Params: p, Roles: []sim.Role{role}, Profile: prof}
 		if scripted {
@@ -459,6 +465,7 @@ func TestC07(t *testing.T) {
 		var g *hist.Gen
 		blocks := 0
 		var script [][]txgen.Tx
+		scriptFamily := ""  // option family the scripted config-update proposal changes
 		scriptID := ""      // id of the scripted config-update proposal whose finalisation is checked mid-block
 		finalizeChecks := 0 // blocks in which such checks were injected
 		votesSeen := false  // a batch of its votes was put into an earlier block
@@ -487,8 +494,12 @@ func TestC07(t *testing.T) {
 				if len(script) == 0 && u.N(3, "newscript") == 0 {
 					if w.C.Height >= 2 && u.N(2, "cfgscript") == 0 {
 						nscript++
-						script, scriptID = scriptCfgProposal(u, g, nscript)
+						script, scriptID = scriptCfgProposal(u, g, nscript, propopts)
 						finalizeChecks, votesSeen = 0, false
+						scriptFamily = ""
+						if len(script) > 0 && len(script[0]) > 0 && len(script[0][0].Tags) > 1 {
+							scriptFamily = strings.SplitN(script[0][0].Tags[1], ".", 2)[0]
+						}
 					} else {
 						script, scriptID = scriptProposal(rt, u, g), ""
 					}
@@ -572,6 +583,14 @@ func TestC07(t *testing.T) {
 					bnd = fmt.Sprintf("after-tx:%d", k-1)
 				}
 				push(bnd, txgen.ProposalFinalize(fu, govID(scriptID), fu.Addr, w.Fee, w.Memo()))
+				// transactions whose outcome depends on the option family being changed, delivered after the check
+				if sens := sensitiveTxs(u, g, scriptFamily); len(sens) > 0 {
+					txs = append(txs, sens...)
+					spec.Txs = nil
+					for _, tx := range txs {
+						spec.Txs = append(spec.Txs, tx.Bytes)
+					}
+				}
 			}
 			if votesNow {
 				votesSeen = true
@@ -639,7 +658,34 @@ var cfgUpdates = []string{
 
 // scriptCfgProposal returns the stages of a config-update proposal ([create, fund to goal], [one yes vote per
 // genesis validator]) and its id.
-func scriptCfgProposal(u *hist.U, g *hist.Gen, n int) ([][]txgen.Tx, string) {
+// sensitiveTxs draws 1-2 transactions whose outcome depends on the options of a family.
+func sensitiveTxs(u *hist.U, g *hist.Gen, family string) []txgen.Tx {
+	var out []txgen.Tx
+	n := 1 + u.N(2, "sens-n")
+	for i := 0; i < n; i++ {
+		switch family {
+		case "onsOptions":
+			if u.N(2, "sens-ons") == 0 {
+				out = append(out, g.DomainCreate())
+			} else {
+				out = append(out, g.DomainRenew())
+			}
+		case "stakingOptions":
+			if u.N(2, "sens-stk") == 0 {
+				out = append(out, g.Stake())
+			} else {
+				out = append(out, g.Unstake())
+			}
+		case "propOptions":
+			out = append(out, g.ProposalCreate())
+		case "evidenceOptions":
+			out = append(out, g.Allegation())
+		}
+	}
+	return out
+}
+
+func scriptCfgProposal(u *hist.U, g *hist.Gen, n int, propopts bool) ([][]txgen.Tx, string) {
 	w := g.W
 	ui := u.N(len(w.G.U.Users), "cfg-proposer")
 	usr := w.G.U.Users[ui]
@@ -650,6 +696,12 @@ func scriptCfgProposal(u *hist.U, g *hist.Gen, n int) ([][]txgen.Tx, string) {
 	goal := hist.ParseAmt([]byte(`"` + w.P.PropFundingGoal + `"`))
 	initial := hist.ParseAmt([]byte(`"` + w.P.PropInitialFunding + `"`))
 	cfg := cfgUpdates[u.N(len(cfgUpdates), "cfg-update")]
+	if propopts && u.N(4, "cfg-propopts") != 0 {
+		typ := []string{"general", "general", "configUpdate", "codeChange"}[u.N(4, "cfg-po-type")]
+		two := func(x *big.Int) string { return new(big.Int).Mul(x, big.NewInt(2)).String() }
+		cfg = []string{"propOptions." + typ + ".initialFunding:" + two(initial), "propOptions." + typ + ".fundingGoal:" + two(goal),
+			"propOptions." + typ + ".passPercentage:60", "propOptions." + typ + ".fundingGoal:" + new(big.Int).Mul(initial, big.NewInt(3)).String()}[u.N(4, "cfg-po-what")]
+	}
 	create := txgen.ProposalCreate(usr, agov.CreateProposal{ProposalID: id, ProposalType: governance.ProposalTypeConfigUpdate, Headline: "h", Description: "d",
 		Proposer: usr.Addr, InitialFunding: txgen.Amt("OLT", initial), FundingDeadline: fundDL, FundingGoal: balance.NewAmountFromBigInt(goal),
 		VotingDeadline: voteDL, PassPercentage: w.P.PropPassPct, ConfigUpdate: cfg}, w.Fee, w.Memo())
